@@ -18,3 +18,7 @@ func (w *Watch) VerifNextNoBlock() (ev *pbresource.WatchEvent, err error, ok boo
 	}
 	return ev, err, true
 }
+
+// VerifCanProgress reports whether a Next call would consume at least one buffered item (or find the
+// watch closed) instead of waiting right away. It takes no lock.
+func (w *Watch) VerifCanProgress() bool { return len(w.events) != 0 || w.sub.VerifHasNext() }
